@@ -895,6 +895,8 @@ impl NodeId {
     ///
     /// * Returns [`NodeError::InsertAfterSelf`] error if the given new sibling
     ///   is `self`.
+    /// * Returns [`NodeError::InsertAfterAncestor`] error if the given new
+    ///   sibling is an ancestor of `self`.
     /// * Returns [`NodeError::Removed`] error if the given new sibling or
     ///   `self` is [`remove`]d.
     ///
@@ -926,6 +928,9 @@ impl NodeId {
         }
         if arena[self].is_removed() || arena[new_sibling].is_removed() {
             return Err(NodeError::Removed);
+        }
+        if self.ancestors(arena).any(|ancestor| new_sibling == ancestor) {
+            return Err(NodeError::InsertAfterAncestor);
         }
         new_sibling.detach(arena);
         let (next_sibling, parent) = {
@@ -995,6 +1000,8 @@ impl NodeId {
     ///
     /// * Returns [`NodeError::InsertBeforeSelf`] error if the given new sibling
     ///   is `self`.
+    /// * Returns [`NodeError::InsertBeforeAncestor`] error if the given new
+    ///   sibling is an ancestor of `self`.
     /// * Returns [`NodeError::Removed`] error if the given new sibling or
     ///   `self` is [`remove`]d.
     ///
@@ -1026,6 +1033,9 @@ impl NodeId {
         }
         if arena[self].is_removed() || arena[new_sibling].is_removed() {
             return Err(NodeError::Removed);
+        }
+        if self.ancestors(arena).any(|ancestor| new_sibling == ancestor) {
+            return Err(NodeError::InsertBeforeAncestor);
         }
         new_sibling.detach(arena);
         let (previous_sibling, parent) = {
